@@ -123,7 +123,8 @@ def run(repo, rep, tier):
     # (C09 owns the element details)
     from . import c09 as _c09
     L.borrow(repo, rep, "R01.8", "C09", _c09.element_details,
-             ("decode-which", "attrs-alias-first", "multipart-complete"))
+             ("decode-which", "attrs-alias-first", "multipart-complete",
+              "blank-clause-empty"))
     ds = repo.cls("chameleon.utils.DebuggingOutputStream").methods["append"]
     rs = [n for n in ast.walk(ds.node) if isinstance(n, ast.Raise)]
     okd = bool(rs)
@@ -595,6 +596,30 @@ def _skeletons(repo, rep):
               "next term runs iff the value so far 'is' True for And / False "
               "for Or (compared with isinstance(node, And))",
               construct="logical-chain", where=L.where(f))
+    # ... and the terms run in the order written: the chain is built from
+    # the inside out (each term's statements wrap what was built so far), so
+    # the builder has to walk the terms backwards
+    steps_ = [n for n in ast.walk(f.node) if isinstance(n, ast.FunctionDef)
+              and n is not f.node]
+    wraps = []
+    for st in steps_:
+        for lp in ast.walk(st):
+            if isinstance(lp, ast.For) and any(
+                    isinstance(a, ast.Assign) and src(a.targets[0]) == "body"
+                    for a in ast.walk(lp)) and any(
+                        isinstance(c, ast.Call) and any(
+                            src(x) == "body" for x in c.args)
+                        for c in ast.walk(lp)):
+                wraps.append(lp)
+    if not wraps:
+        raise AnalysisError("visit_Condition: the builder of logical "
+                            "chains is not the inside-out loop any more")
+    rep.check(all("reversed(" in src(lp.iter) for lp in wraps), "R01.4",
+              f.qualname, "the terms of an and / or chain are evaluated in "
+              "the order written (inside-out construction over the "
+              "reversed terms)", construct="logical-order",
+              where=L.where(f, wraps[0].lineno),
+              detail=src(wraps[0].iter))
     ev = lin.index(lambda it: isinstance(it, A.Eval))
     rep.check(ifs and ev >= 0 and ev < max(ifs), "R01.4", f.qualname,
               "the condition is evaluated before the test",
@@ -1244,6 +1269,12 @@ def statement_patterns(repo, rep, rule="R01.8"):
             bad.append("a part is %s" % src(n.args[0]))
     drops = [n for n in ast.walk(sp.node) if isinstance(n, ast.Delete)]
     for d in drops:
+        gtxt = " ".join(src(t_) for t_, v_ in L.guards_of(d, sp.node)
+                        if isinstance(t_, ast.expr))
+        if "parts[-1].strip()" not in gtxt:
+            bad.append("the trailing part is dropped only when it is "
+                       "literally empty (a statement that ends in ';' and "
+                       "a line break or blanks is valid)")
         if not any(isinstance(t_, ast.expr) and "len(parts)" in src(t_)
                    for t_, v_ in L.guards_of(d, sp.node)):
             bad.append("the trailing empty part is dropped whatever the "
